@@ -2225,19 +2225,13 @@ Proof.
 Qed.
 
 (* ---- remark: why the invariant above carries UTF-8 validity of member names ---- *)
-(* ApplySim.codec_ok (the hypothesis under which the v5 simulation covers copy) quantifies over all
-   good nodes, including parsed objects whose member names are not valid UTF-8; the encoder writes
-   such a name as U+FFFD, so the hypothesis is refutable: theorems that assume it say nothing about
-   patches with a copy.  Here the codec fact is PROVED (enc4_codec) from an invariant that keeps
-   member names in valid UTF-8 (ogood4) and raw names decodable (tkeys). *)
-Lemma v5_codec_ok_refutable : ~ ApplySim.codec_ok.
-Proof.
-  intro CO.
-  assert (G : ngood (NDoc [[xff]] [([xff], NNil)])).
-  { split.
-    - apply nwf_doc. split.
-      + split; [constructor; [intros []|constructor]|]. split; [constructor; [intros []|constructor]|]. intro k. reflexivity.
-      + constructor; [exact I | constructor].
-    - apply nlit_doc. constructor; [exact I | constructor]. }
-  destruct (CO true _ G) as [H _]; [discriminate|]. vm_compute in H. discriminate.
-Qed.
+(* The v5 simulation (ApplySim.v) once covered copy only under a global hypothesis codec_ok that
+   quantified over all good nodes, including parsed objects whose member names are not valid UTF-8;
+   the encoder writes such a name as U+FFFD, so that hypothesis was refutable.  It is gone: ApplySim's
+   invariant ngood now carries StrInv.nstr (member names in valid UTF-8, raw messages with
+   scanner-accepted string bodies) and the codec fact is PROVED there (StrInv.codec_thm), as it is
+   here (enc4_codec) from ogood4 / tkeys.  What remains true, and is the reason for the invariant:
+   re-encoding an object whose member name is NOT valid UTF-8 does not give the value back. *)
+Example bad_name_not_roundtrip :
+  den (escape_tree true (render true (NDoc [[xff]] [([xff], NNil)]))) <> aval (NDoc [[xff]] [([xff], NNil)]).
+Proof. vm_compute. discriminate. Qed.
